@@ -828,7 +828,7 @@ mod eager {
 
     impl Read for Blocking {
         fn read(&mut self, buf: &mut [u8]) -> io::Result<usize> {
-            self.inc.pop(buf, Duration::from_millis(1500))
+            self.inc.pop(buf, Duration::from_secs(20))
         }
     }
 
@@ -852,7 +852,7 @@ mod eager {
 
     impl AsyncRead for Eager {
         fn poll_read(self: Pin<&mut Self>, _: &mut Context<'_>, buf: &mut [u8]) -> Poll<io::Result<usize>> {
-            let r = self.inc.pop(buf, Duration::from_millis(1500));
+            let r = self.inc.pop(buf, Duration::from_secs(20));
             verif::emit(T_READ, buf.len() as u64, if r.is_ok() { R_OK } else { R_ERR }, *r.as_ref().unwrap_or(&0) as u64);
             Poll::Ready(r)
         }
@@ -1437,10 +1437,10 @@ mod ws {
                 let p = moved[0].get() + moved[1].get() + outs[0].borrow().steps + outs[1].borrow().steps;
                 if p != last.0 {
                     last = (p, Instant::now());
-                } else if last.1.elapsed() > Duration::from_millis(3000) {
+                } else if last.1.elapsed() > Duration::from_millis(8000) {
                     return Poll::Ready(3);
                 }
-                if t0.elapsed() > Duration::from_secs(40) {
+                if t0.elapsed() > Duration::from_secs(300) {
                     return Poll::Ready(4);
                 }
                 cx.waker().wake_by_ref();
